@@ -1193,6 +1193,170 @@ def _record_dicts(fn):
     return False
 
 
+_RECORDS = {}
+
+
+def _record_classes(tree):
+    """record classes of this module: NamedTuple / @dataclass classes with annotated fields only, and namedtuple(...) factories -> {name: (fields, defaults, kind)}"""
+    out = {}
+    for n in tree.body:
+        if isinstance(n, ast.ClassDef):
+            is_nt = any(ast.unparse(b).split('.')[-1] == 'NamedTuple' for b in n.bases)
+            is_dc = any(ast.unparse(d.func if isinstance(d, ast.Call) else d).split('.')[-1] == 'dataclass' for d in n.decorator_list)
+            if not (is_nt or is_dc) or (is_nt and len(n.bases) != 1) or (is_dc and (n.bases or len(n.decorator_list) != 1)):
+                continue
+            fields, defaults, ok = [], {}, True
+            for b in n.body:
+                if isinstance(b, ast.Expr) and isinstance(b.value, ast.Constant) and isinstance(b.value.value, str):
+                    continue
+                if isinstance(b, ast.Pass):
+                    continue
+                if isinstance(b, ast.AnnAssign) and isinstance(b.target, ast.Name) and 'ClassVar' not in ast.unparse(b.annotation):
+                    fields.append(b.target.id)
+                    if b.value is not None:
+                        if not _literal_ok(b.value) or isinstance(b.value, (ast.List, ast.Dict, ast.Set)) or isinstance(b.value, ast.Call):
+                            ok = False
+                        defaults[b.target.id] = b.value
+                    continue
+                ok = False
+            if ok and fields:
+                out[n.name] = (fields, defaults, 'tuple' if is_nt else 'object')
+        elif isinstance(n, ast.Assign) and len(n.targets) == 1 and isinstance(n.targets[0], ast.Name) and isinstance(n.value, ast.Call) \
+                and ast.unparse(n.value.func).split('.')[-1] == 'namedtuple' and len(n.value.args) == 2 and not n.value.keywords:
+            spec = n.value.args[1]
+            fields = None
+            if isinstance(spec, ast.Constant) and isinstance(spec.value, str):
+                fields = spec.value.replace(',', ' ').split()
+            elif isinstance(spec, (ast.List, ast.Tuple)) and all(isinstance(e, ast.Constant) and isinstance(e.value, str) for e in spec.elts):
+                fields = [e.value for e in spec.elts]
+            if fields and all(f.isidentifier() for f in fields):
+                out[n.targets[0].id] = (fields, {}, 'tuple')
+    # a name that is rebound anywhere in the module is not a record class
+    for n in ast.walk(tree):
+        if isinstance(n, ast.Name) and isinstance(n.ctx, (ast.Store, ast.Del)) and n.id in out:
+            cnt = sum(1 for m in ast.walk(tree) if isinstance(m, ast.Name) and isinstance(m.ctx, ast.Store) and m.id == n.id)
+            defs = sum(1 for m in ast.walk(tree) if isinstance(m, ast.ClassDef) and m.name == n.id)
+            if cnt + defs != 1:
+                out.pop(n.id, None)
+    return out
+
+
+def _record_objects(fn):
+    """scalar replacement of a local record:  g = _Rec(a, b) ... g.x ... g.y   ->   g__x = a ; g__y = b ... g__x ... g__y
+    (g bound once, outside loops, and every other occurrence is a field access g.f, a constant index g[i] or - for tuple records - a full unpacking)"""
+    if not _RECORDS:
+        return False
+    info = _FnInfo(fn)
+    for asg in [n for n in ast.walk(fn) if isinstance(n, ast.Assign)]:
+        if len(asg.targets) != 1 or not isinstance(asg.targets[0], ast.Name):
+            continue
+        name, val = asg.targets[0].id, asg.value
+        if not (isinstance(val, ast.Call) and isinstance(val.func, ast.Name) and val.func.id in _RECORDS):
+            continue
+        if val.func.id in info.counts or val.func.id in info.params:
+            continue
+        if not info.single(name) or info.order.get(id(asg)) is None or info.loops.get(id(asg), True):
+            continue
+        fields, defaults, kind = _RECORDS[val.func.id]
+        if any(isinstance(a, ast.Starred) for a in val.args) or any(k.arg is None for k in val.keywords) or len(val.args) > len(fields):
+            continue
+        bound = dict(zip(fields, val.args))
+        bad = False
+        for k in val.keywords:
+            if k.arg in bound or k.arg not in fields:
+                bad = True
+            bound[k.arg] = k.value
+        for f in fields:
+            if f not in bound:
+                if f in defaults:
+                    bound[f] = copy.deepcopy(defaults[f])
+                else:
+                    bad = True
+        if bad:
+            continue
+        occ = [n for n in ast.walk(fn) if isinstance(n, ast.Name) and n.id == name and n is not asg.targets[0]]
+        if not occ:
+            continue
+        nested = set()
+        for d in ast.walk(fn):
+            if isinstance(d, (ast.FunctionDef, ast.Lambda, ast.AsyncFunctionDef)) and d is not fn:
+                for x in ast.walk(d):
+                    nested.add(id(x))
+        ok = True
+        repl = {}
+        unpacks = []
+        for o in occ:
+            par = info.parents.get(id(o))
+            if info.order.get(info.owner.get(id(o)), -1) <= info.order[id(asg)] and id(o) not in nested:
+                ok = False
+                break
+            if isinstance(par, ast.Attribute) and par.value is o and par.attr in fields and not isinstance(par.ctx, ast.Del):
+                if isinstance(par.ctx, ast.Store) and (kind == 'tuple' or id(o) in nested):
+                    ok = False
+                    break
+                repl[id(par)] = par.attr
+            elif kind == 'tuple' and isinstance(par, ast.Subscript) and par.value is o and isinstance(par.ctx, ast.Load) and _const_key(par.slice) is not None \
+                    and _const_key(par.slice)[0] == 'int' and -len(fields) <= _const_key(par.slice)[1] < len(fields):
+                repl[id(par)] = fields[_const_key(par.slice)[1]]
+            elif kind == 'tuple' and isinstance(par, ast.Assign) and par.value is o and len(par.targets) == 1 and isinstance(par.targets[0], (ast.Tuple, ast.List)) \
+                    and len(par.targets[0].elts) == len(fields) and not any(isinstance(e, ast.Starred) for e in par.targets[0].elts):
+                unpacks.append(o)
+            else:
+                ok = False
+                break
+        if not ok:
+            continue
+
+        def local(f):
+            return '%s__%s' % (name, f)
+        existing = {n.id for n in ast.walk(fn) if isinstance(n, ast.Name)} | info.params
+        if any(local(f) in existing for f in fields):
+            continue
+        # the field values are evaluated in argument order: positional first, then keywords as written, then defaults (constants)
+        order_ = [f for f, _ in zip(fields, val.args)] + [k.arg for k in val.keywords] + [f for f in fields if f not in dict(zip(fields, val.args)) and f not in {k.arg for k in val.keywords}]
+
+        class Rp(ast.NodeTransformer):
+            def visit_Attribute(self, n):
+                if id(n) in repl:
+                    return ast.copy_location(ast.Name(id=local(repl[id(n)]), ctx=n.ctx), n)
+                return self.generic_visit(n)
+
+            def visit_Subscript(self, n):
+                if id(n) in repl:
+                    return ast.copy_location(ast.Name(id=local(repl[id(n)]), ctx=ast.Load()), n)
+                return self.generic_visit(n)
+
+            def visit_Name(self, n):
+                if any(n is u for u in unpacks):
+                    return ast.copy_location(ast.Tuple(elts=[ast.Name(id=local(f), ctx=ast.Load()) for f in fields], ctx=ast.Load()), n)
+                return n
+        Rp().visit(fn)
+        new = []
+        for f in order_:
+            a = ast.Assign(targets=[ast.Name(id=local(f), ctx=ast.Store())], value=bound[f])
+            ast.copy_location(a, asg)
+            new.append(a)
+
+        class Ins(ast.NodeTransformer):
+            def generic_visit(self, n):
+                super().generic_visit(n)
+                for fld in ('body', 'orelse', 'finalbody'):
+                    v = getattr(n, fld, None)
+                    if isinstance(v, list) and any(x is asg for x in v):
+                        i = [j for j, x in enumerate(v) if x is asg][0]
+                        setattr(n, fld, v[:i] + new + v[i + 1:])
+                if isinstance(n, ast.Try):
+                    for h in n.handlers:
+                        if any(x is asg for x in h.body):
+                            i = [j for j, x in enumerate(h.body) if x is asg][0]
+                            h.body = h.body[:i] + new + h.body[i + 1:]
+                return n
+        Ins().visit(fn)
+        ast.fix_missing_locations(fn)
+        return True
+    return False
+
+
 def _first_match_loops(fn):
     """for T in LITERAL: if TEST: BODY ; break   [else: ELSE]     ->   if TEST[T:=e1]: BODY[T:=e1] elif TEST[T:=e2]: ... else: ELSE
     and the loop without break over a literal of tuples:  for a, b in ((x, y), (u, v)): BODY  ->  BODY[a:=x, b:=y] ; BODY[a:=u, b:=v]"""
@@ -1969,6 +2133,8 @@ def simplify_function(fn, ctx, inliner, cls):
             changed = True
         elif _record_dicts(fn):
             changed = True
+        elif _record_objects(fn):
+            changed = True
         elif _local_closures(fn, inliner, cls):
             changed = True
         elif _coalesce_copies(fn):
@@ -1986,6 +2152,8 @@ def simplify_function(fn, ctx, inliner, cls):
 def lower_module(tree, inliner, extra_passes=()):
     """fixpoint of: private constants -> helper inlining -> per-function simplification -> extra (unrolling) passes"""
     ctx = _partial_names(tree)
+    _RECORDS.clear()
+    _RECORDS.update(_record_classes(tree))
     for it in range(8):
         before = ast.dump(tree)
         module_consts(tree)
